@@ -19,7 +19,18 @@ ID = 'C16'
 NAMESPACE = 'VL.C16'
 LEAN_MODULES = ['VotelibProofs.Props.C16']
 GEN_MODULES = ['Quota']
-REQUIRED = []          # filled at the end of the file
+REQUIRED = ['passes_iff', 'sumVals_eq_sum', 'abs_threshold_exact', 'abs_threshold_order', 'rel_threshold_exact',
+            'share_boundary', 'rel_threshold_zero_total', 'alternative_combine_mem', 'alternative_combine_nodup',
+            'alternative_combine_sorted', 'alternative_is_union', 'alternative_error_iff', 'coalition_dispatch',
+            'coalition_error_iff', 'property_variant_none', 'property_variant_some', 'property_dispatch',
+            'sel_eval_abs', 'sel_eval_rel', 'sel_eval_prev', 'sel_alt_is_union', 'sel_coalition_dispatch',
+            'sel_property_dispatch', 'quota_selector_exact', 'quota_selector_overflow_error',
+            'quota_selector_overflow_select', 'mem_jumpers', 'jump_threshold_spec', 'openlist_no_threshold',
+            'openlist_fill', 'openlist_overflow_by_votes', 'openlist_overflow_by_list', 'jumpers_nodup',
+            'jumpers_sorted', 'jumpers_sub_keys', 'openlist_length_distinct', 'openlist_order',
+            'openlist_no_pass_over', 'openlist_overflow_votes_best', 'openlist_overflow_list_best',
+            'break_by_list_only_tied', 'list_tiebreak_only_tied', 'break_by_list_nbest', 'sortByIndex_spec',
+            'list_tiebreak_plurality_tie']
 REQUIRED_COUNTERS = ['on_threshold_eq', 'on_threshold_noeq', 'decimal_threshold', 'int_threshold', 'fraction_threshold',
                      'alternative', 'bracketer', 'bracketer_property', 'openlist_jump', 'openlist_fill',
                      'openlist_overflow', 'openlist_precedence', 'openlist_no_threshold', 'openlist_tie',
@@ -628,22 +639,62 @@ def describe(case):
     return json.dumps(strip_case(case))
 
 
+def _sub_selectors(sel):
+    if sel is None:
+        return
+    if sel['k'] == 'alt':
+        for p in sel['parts']:
+            yield p
+        if len(sel['parts']) > 1:
+            for i in range(len(sel['parts'])):
+                yield {'k': 'alt', 'parts': sel['parts'][:i] + sel['parts'][i + 1:]}
+    elif sel['k'] in ('coalition', 'property'):
+        for _, s in sel['evs']:
+            if s is not None:
+                yield s
+        if sel['default'] is not None:
+            yield sel['default']
+        for i in range(len(sel['evs'])):
+            c = dict(sel)
+            c['evs'] = sel['evs'][:i] + sel['evs'][i + 1:]
+            yield c
+    elif sel['k'] == 'prev':
+        yield sel['inner']
+
+
 def shrink_candidates(case):
     op = case['op']
-    if 'votes' not in case:
+    if op == 'break_by_list':
+        el = case['elected']
+        for i in range(len(el)):
+            if len(el) > 1:
+                c = dict(case)
+                c['elected'] = el[:i] + el[i + 1:]
+                yield c
         return
     vs = case['votes']
-    if op in ('abs_threshold', 'rel_threshold', 'quota_selector', 'openlist', 'tiebreak') and len(vs) > 1:
+    types = case.get('_types') or ['F'] * len(vs)
+    if op == 'seatless':
+        for sub in _sub_selectors(case['sel']):
+            c = dict(case)
+            c['sel'] = sub
+            yield c
+        if case.get('prev'):
+            c = dict(case)
+            c['prev'] = case['prev'][:-1]
+            yield c
+    if len(vs) > 1:
         for i in range(len(vs)):
             c = dict(case)
             c['votes'] = vs[:i] + vs[i + 1:]
-            c['_types'] = (case.get('_types') or ['F'] * len(vs))[:i] + (case.get('_types') or ['F'] * len(vs))[i + 1:]
-            if 'list' in case and op == 'openlist':
+            c['_types'] = types[:i] + types[i + 1:]
+            if op in ('openlist', 'tiebreak'):
                 gone = vs[i][0]
                 c['list'] = [x for x in case['list'] if x != gone]
                 if not c['list']:
                     continue
-                c['n'] = max(1, min(case['n'], len(c['list'])))
+                if op == 'openlist':
+                    c['n'] = max(1, min(case['n'], len(c['list'])))
             yield c
     if case.get('n', 1) > 1:
         c = dict(case)
@@ -969,7 +1020,7 @@ def gen_break(rng):
 
 
 def _gen(rng, tier):
-    scale = 1 if tier == 'quick' else 20
+    scale = 3 if tier == 'quick' else 40
     for _ in range(500 * scale):
         yield gen_rel_boundary(rng)
     for _ in range(250 * scale):
